@@ -1448,7 +1448,7 @@ package sftp
 //@ ghost var gmin int64
 
 //@ func (*File).readAt
-//@   property C01, C13, C12
+//@   property C01, C13, C12, C03
 //@   results n, err
 //@   requires fileOK(f) && off >= 0 && off <= 0x3fffffffffffffff && len(b) <= 0x3fffffffffffffff
 //@   assume after make errCh#1: attr(ret, lo) == off && attr(ret, hi) == off + int64(len(b))
@@ -1505,7 +1505,7 @@ package sftp
 //@ ghost var wtEnd int64
 
 //@ func (*File).writeAtConcurrent
-//@   property C01, C13, C12
+//@   property C01, C13, C12, C03
 //@   results n, err
 //@   requires fileOK(f) && off >= 0 && off <= 0x3fffffffffffffff && len(b) <= 0x3fffffffffffffff
 //@   assume after make errCh#1: attr(ret, lo) == off && attr(ret, hi) == off + int64(len(b))
@@ -1626,7 +1626,7 @@ package sftp
 //@ ghost var dOff int64
 
 //@ func (*File).readFromWithConcurrency
-//@   property C01, C12, C13
+//@   property C01, C12, C13, C03
 //@   requires fileOK(f) && r != nil && f.offset >= 0 && f.offset <= 0x3fffffffffffffff
 //@   assume after make errCh#1: attr(ret, lo) == f.offset
 //@   assume after make workCh#1: attr(ret, lo) == f.offset
